@@ -24,7 +24,8 @@ PENDING_TEXT = {
             "ShapeVerif.classifyArray_never_fails", "ShapeVerif.classifyArrayV_total",
             "ShapeVerif.rejectDiagnostics_no_panic", "ShapeVerif.isSuperset_never_errs", "ShapeVerif.work_bounds",
             "ShapeVerif.text_layer_terminates", "ShapeVerif.parser_steps_linear", "ShapeVerif.twin_agrees",
-            "ShapeVerif.twin_total", "ShapeVerif.lexLoopO_eq"],
+            "ShapeVerif.twin_total", "ShapeVerif.lexLoopO_eq", "ShapeVerif.tree_depth_bounded", "ShapeVerif.rules_depth",
+            "ShapeVerif.tokenize_depth"],
     "C07": ["ShapeVerif.render_independent", "ShapeVerif.same_document_same_result",
             "ShapeVerif.rerender_same_shape", "ShapeVerif.infer_member_order",
             "ShapeVerif.infer_payload_independent", "ShapeVerif.infer_factors", "ShapeVerif.infer_repetition",
@@ -223,12 +224,14 @@ PROPS = {
             "tokenize_ok": "every token is a non-empty range between character boundaries, tokens follow each other in order, String tokens span at least two characters, every lexer diagnostic (incl. the three kinds of check_string) is an ordered pair of boundaries",
             "parse_leaves": "the leaves of the recovering parser's tree are exactly the lexer's tokens in order (no recovery path drops, duplicates or reorders a token)",
             "text_layer_terminates": "∀ t, the twins of the lexer loop and of rule_value that FAIL when the model's fuel runs out answer (and answer the model's result) from the fuel the model starts with: |t| for the lexer, 2·|tokens|+4 for the parser — the model's cut-off is never what ends a run, for any string (grammatical or not)",
+            "tree_depth_bounded": "∀ t, every prefix of the token list of t has at most 256 brackets open (diagnostics or not) and the tree the recovering parser builds for t has depth ≤ 516 — one stack frame of the generated parser and of parse_cst per level, so recursion depth is bounded for every string, not only for accepted ones",
+            "rules_depth": "in every coherent parser state each rule function emits at least as many openers as closers and a forest of depth ≤ 2·H + c, H = the largest excess of openers over closers in any prefix of the remaining tokens (stray closers end the recovery loops, they are never skipped)",
             "parser_steps_linear": "in every coherent parser state 2·|remaining tokens|+1 nested calls / loop iterations suffice for rule_value: every recursive call and every iteration of the two recovery loops is preceded by the consumption of a token",
         },
-        "partial": ["'no unbounded loop' is a theorem for the lexer loop and the recovering parser (text_layer_terminates: linear step bounds for every string); the remaining functions of the model are structurally recursive on the tree / document / shape. Stack depth in bytes and wall-clock are not expressible in the model: the real code is run on 100000-bracket and multi-hundred-kilobyte inputs and on nesting in every position (16 one-hole contexts x 5 cores, depth 30-120, both paths) under a per-operation time limit in a restartable child process",
+        "partial": ["'no unbounded loop' is a theorem for the lexer loop and the recovering parser (text_layer_terminates: linear step bounds for every string); the remaining functions of the model are structurally recursive on the tree / document / shape. 'no stack overflow' is a theorem in the form the model can carry: the depth of the parse tree — the number of nested frames of the generated parser and of parse_cst — is at most 516 for every string (tree_depth_bounded); that 516 frames fit the stack is the remaining assumption. Bytes of stack and wall-clock are not expressible in the model: the real code is run on 100000-bracket and multi-hundred-kilobyte inputs and on nesting in every position (16 one-hole contexts x 5 cores, depth 30-120, both paths) under a per-operation time limit in a restartable child process",
                     "work bounds are call counts (work_bounds, shared with C12)"],
         "rule": "as C04's corpus plus hostile sizes: 1000 and 100000 unbalanced/balanced brackets, 100000 nested `{\"a\":`, 300 KB (thorough 4 MB) strings with multi-byte characters, wide arrays, many siblings, unterminated escapes; serde_json values nested to serde_json's limit through the value path. Oracle: no panic, no crash, no timeout; every InvalidJson range lies inside the input on character boundaries and the fragment equals the input at that range (checked byte-wise in Python). Correspondence is one-sided for C05 (code panics/hangs ⇒ model panics): differences in the answer itself are C04's subject. Non-trivial = error answer or container.",
-        "assumptions": ["frame size x 258 nested parse_rule calls fits the stack (validated by the runs)"],
+        "assumptions": ["one frame of rule_* / parse_rule per tree level and 516 such frames fit the stack (validated by the runs on 100000-bracket inputs and on depth-256 documents)", "the value path recurses once per level of the serde_json value, whose depth serde_json bounds by 128"],
         "level_text": "fromStr_total and span_faithful are Lean theorems over all strings: the model of the whole text path (logos-style lexer with check_string, lelwel's recovering parser, parse_cst with all its slices of the source as explicit panic outcomes, reject_diagnostics) never reaches a panic outcome, and every InvalidJson carries exactly the input text at a range on character boundaries. Proved through three invariants: tokens tile the text on character boundaries (tokenize_ok), the parse tree's leaves are the tokens in order (parse_leaves), every diagnostic of lexer and parser is an ordered pair of boundaries. The model is compared with the real code on every generated text including panic/crash/timeout outcomes; stack depth and time are observed on adversarial sizes, not proved.",
         "level_note": "Trusted: Lean kernel; text-layer model tied by differential testing (lexer tokens, CST, results incl. error ranges); real stack/time behaviour is observed, not proved.",
     },
